@@ -590,12 +590,30 @@ func c03StateVariants(X, Y, Z, F *c03Login) []c03Named {
 			}
 			return n
 		}())},
+		// round 9: spellings a LENIENT base64 decoder would map to the same bytes as the genuine nonce hash — the last character
+		// replaced by the ones that differ only in the two padding bits, and CR / LF inserted (ignored by Go's decoders)
+		{Name: "nonce-last-char-sibling-1", Class: "nonce-char-changed", State: mk(n[:len(n)-1]+c03B64Sibling(n[len(n)-1], 1), X.Redirect)},
+		{Name: "nonce-last-char-sibling-2", Class: "nonce-char-changed", State: mk(n[:len(n)-1]+c03B64Sibling(n[len(n)-1], 2), X.Redirect)},
+		{Name: "nonce-last-char-sibling-3", Class: "nonce-char-changed", State: mk(n[:len(n)-1]+c03B64Sibling(n[len(n)-1], 3), X.Redirect)},
+		{Name: "nonce-lf-inserted", Class: "nonce-extended", State: mk(n[:20]+"\n"+n[20:], X.Redirect)},
+		{Name: "nonce-cr-inserted", Class: "nonce-extended", State: mk(n[:30]+"\r"+n[30:], X.Redirect)},
+		{Name: "nonce-crlf-appended", Class: "nonce-extended", State: mk(n+"\r\n", X.Redirect)},
 		// the same content in the other encoding than the receiving instance is configured for
 		{Name: "other-encoding", Class: "encoding-mismatch", State: c03Str(c03EncodeState(n, X.Redirect, !enc))},
 		// the verbatim state of a login started on the sibling with the opposite --encode-state (same secret)
 		{Name: "state-of-flipped-encoding-sibling-login", Class: "encoding-mismatch", State: c03Str(F.State)},
 	}
 	return vs
+}
+
+// c03B64Sibling: the k-th other base64url character that shares the upper four bits of c's six-bit value.
+func c03B64Sibling(c byte, k int) string {
+	const alpha = "ABCDEFGHIJKLMNOPQRSTUVWXYZabcdefghijklmnopqrstuvwxyz0123456789-_"
+	i := strings.IndexByte(alpha, c)
+	if i < 0 {
+		return "A"
+	}
+	return string(alpha[(i&^3)|((i+k)&3)])
 }
 
 func c03Tamper(value string, field int, rng *mrand.Rand) string {
